@@ -111,8 +111,8 @@ func uninstallMonitor() { engine.VerifRoundHook = nil }
 func storeSet(s factstore.ReadOnlyFactStore) (set canon.Set, dups int, nonGround []string) {
 	set = canon.Set{}
 	for _, a := range allFacts(s) {
-		if a.Predicate.IsInternalPredicate() {
-			continue
+		if a.Predicate.IsInternalPredicate() || a.Predicate.Symbol == "__now" {
+			continue // __now(T) is the marker WithNowMarker adds after evaluation
 		}
 		if !a.IsGround() {
 			nonGround = append(nonGround, a.String())
